@@ -105,7 +105,7 @@ impl<'a> Model<'a> {
 
     /// Content that `include arg` yields for a source in `dir`.
     fn include(&mut self, dir: &str, arg: &str) -> Result<String, SpecErr> {
-        let target = match spec::resolve_arg(dir, arg) {
+        let target = match spec::resolve_arg_in(self.project, dir, arg) {
             Some(t) => t,
             None => return Err(SpecErr::Unknown(format!("include argument {arg:?} outside the domain"))),
         };
@@ -300,7 +300,7 @@ impl<'a> Model<'a> {
                 if d.name == "after" {
                     // behaves like include as far as the target goes; a missing target is outside
                     // the domain (4.3 item 10)
-                    if let Some(t) = spec::resolve_arg(dir, &d.args[0]) {
+                    if let Some(t) = spec::resolve_arg_in(self.project, dir, &d.args[0]) {
                         let exists = self.a.by_out.contains_key(&t) || self.project.file(&t).is_some();
                         if !exists {
                             return Err(SpecErr::Unknown("after of a missing target".into()));
@@ -327,7 +327,7 @@ impl<'a> Model<'a> {
                 if crate::names::is_source_name(crate::names::file_name(target)) {
                     return Err(SpecErr::Error("temp target is a txtpp file".into()));
                 }
-                let path = match spec::resolve_arg(dir, target) {
+                let path = match spec::resolve_arg_in(self.project, dir, target) {
                     Some(p) if !p.is_empty() => p,
                     _ => return Err(SpecErr::Unknown("temp target outside the domain".into())),
                 };
